@@ -8,6 +8,8 @@ import (
 	"fmt"
 	"io"
 	"math/big"
+	"regexp"
+	"runtime/debug"
 	"sort"
 	"strings"
 
@@ -114,6 +116,34 @@ type Node struct {
 	EcKey    *eckg.LocalPartySaveData // the caller-held key data handed to the constructor (signing / resharing)
 	EdKey    *edkg.LocalPartySaveData
 	Delivered []string // refs delivered (in order), with flag marks
+	Poisoned   bool     // a call panicked: the party is not called any more
+	PanicSites []string // first tss-lib frame below each recovered panic
+}
+
+var siteRe = regexp.MustCompile(`tss-lib/v2/([A-Za-z0-9_/]+)\.(\(?\*?[A-Za-z0-9_]+\)?\.)?([A-Za-z0-9_]+)(\.func[0-9.]+)?\(`)
+
+// panicSite returns "pkg[.Recv].Func" of the innermost tss-lib frame of a panic stack.
+func panicSite(stack string) string {
+	lines := strings.Split(stack, "\n")
+	seenPanic := false
+	for _, l := range lines {
+		if strings.HasPrefix(l, "panic(") {
+			seenPanic = true
+			continue
+		}
+		if !seenPanic {
+			continue
+		}
+		if m := siteRe.FindStringSubmatch(l); m != nil {
+			recv := strings.Trim(m[2], "().*")
+			site := m[1]
+			if recv != "" {
+				site += "." + recv
+			}
+			return site + "." + m[3]
+		}
+	}
+	return "unknown"
 }
 
 type Network struct {
@@ -463,10 +493,16 @@ type StepResult struct {
 }
 
 func (nw *Network) guard(n *Node, f func() (bool, *tss.Error)) (res StepResult) {
+	if n.Poisoned {
+		// a panic inside an earlier call left the party's lock held: calling again would block forever
+		return
+	}
 	defer func() {
 		if x := recover(); x != nil {
 			res.Panic = fmt.Sprint(x)
 			n.Panics = append(n.Panics, res.Panic)
+			n.PanicSites = append(n.PanicSites, panicSite(string(debug.Stack())))
+			n.Poisoned = true
 		}
 		res.NewMsg = nw.collect(n)
 	}()
